@@ -330,6 +330,57 @@ fn continuity(idx: u64, rng: &mut Rng, mon: &mut Mon) {
         mon.count(&format!("continuity.fail2_bucket.{}", (sens.min(99.0)) as u64));
         mon.violation(&format!("continuity:j4-j6-unequal-move:signs46={}:{}", signs, off_class), "no answer on the previous arm moves J4 and J6 by the same amount from their previous values", detail("equal-move", &prev, &sols, json!({"smallest_mismatch": if best.is_finite() { json!(best) } else { json!("no answer on the arm") }})));
     }
+    // clause 2b: the trajectory ENTERS the singularity: the previous J5 is 0.3 .. 2 degrees off (outside the band),
+    // J4 and J6 as before; the recovered answer still moves J4 and J6 by the same model amount
+    {
+        let mut prev = q;
+        prev[3] += rng.range(-1.0, 1.0);
+        prev[5] -= rng.range(-1.0, 1.0);
+        prev[4] += rng.sign() * rng.range(0.3f64, 2.0).to_radians();
+        let sols = kin.inverse_continuing(&pose, &prev);
+        let mut found = false;
+        let mut best = f64::INFINITY;
+        for s in &sols {
+            let on_arm = (0..3).all(|j| circ_dist(s[j], q[j]) <= 1e-6 + s_tol) && circ_dist(s[4], q[4]) <= 1e-3;
+            if !on_arm {
+                continue;
+            }
+            let d4 = wrap(s[3] - prev[3]) * rp.signs[3] as f64;
+            let d6 = wrap(s[5] - prev[5]) * rp.signs[5] as f64;
+            let diff = circ_dist(d4, d6);
+            best = best.min(diff);
+            if diff <= 1e-6 {
+                found = true;
+            }
+        }
+        mon.count("continuity.entering_the_singularity");
+        if found {
+            mon.held();
+        } else {
+            mon.violation(&format!("continuity:j4-j6-unequal-move:entering:signs46={}", signs), "previous J5 just outside the band, requested pose exactly singular: no answer on the previous arm moves J4 and J6 by the same amount", detail("equal-move-entering", &prev, &sols, json!({"smallest_mismatch": if best.is_finite() { json!(best) } else { json!("no answer on the arm") }})));
+        }
+    }
+    // clause 1c: the CONSTRAINT_CENTERED sentinel with limits centred on q: the centres play the role of the
+    // previous joints, realise the pose, and must come back first
+    {
+        let (mut from, mut to) = (q, q);
+        for j in 0..6 {
+            let w = rng.range(0.2, 1.0);
+            from[j] -= w;
+            to[j] += w;
+        }
+        let cons = rs_opw_kinematics::constraints::Constraints::new(from, to, 0.0);
+        let centred = (0..6).all(|j| (cons.centers[j] - q[j]).abs() <= 1e-12);
+        if centred {
+            let lim = OPWKinematics::new_with_constraints(to_params(&rp), cons);
+            let sols = lim.inverse_continuing(&pose, &rs_opw_kinematics::kinematic_traits::CONSTRAINT_CENTERED);
+            mon.count("continuity.sentinel_with_centres_on_q");
+            match sols.first() {
+                Some(s) if (0..6).all(|j| (s[j] - q[j]).abs() <= s_tol) => mon.held(),
+                _ => mon.violation(&format!("continuity:first-answer-not-previous:sentinel:signs46={}", signs), "wrist-singular pose, CONSTRAINT_CENTERED with constraint centres that realise it, but the first continuation answer is not the centres", detail("first-is-centres", &q, &sols, json!({"from": jf(&from), "to": jf(&to), "tolerance": s_tol}))),
+            }
+        }
+    }
     if idx < 2 {
         mon.sample(json!({"kind": "continuity", "robot": robot_json(&robot), "q": jf(&q), "sensitivity": sens}));
     }
